@@ -889,6 +889,39 @@ func runC10(c *Check) {
 		}
 		c.Report(okSet, P+".O5", "RUN-MARKS-RUNNING", Run, Run.Pos(), "isRunning = true", "the first Run marks the router as running before it starts handlers")
 	}
+	// AddHandler must not block on the watcher's wake-up channel
+	for i, op := range BlockingOps(r.AddHandler) {
+		c.Report(op.Kind == "lock", P+".O5", "ADD-HANDLER-NEVER-BLOCKS", r.AddHandler, op.Ins.Pos(), fmt.Sprintf("op#%d (%s)", i, op.Kind), "AddHandler blocks on nothing but its lock (the wake-up of the self-close watcher is a non-blocking send)")
+	}
+	nWake := 0
+	for _, si := range Selects(r.AddHandler) {
+		if !si.Blocking {
+			nWake++
+		}
+	}
+	c.Report(nWake >= 1, P+".O5", "ADD-HANDLER-WAKES-WATCHER", r.AddHandler, r.AddHandler.Pos(), "wake-up", "AddHandler signals the self-close watcher without blocking")
+	// every handler is counted in the handler-loop wait group when added, and released when its loop ended
+	nAdd := 0
+	for _, a := range CallsTo(r.AddHandler, nWGAdd) {
+		if r.LA.LockID(Receiver(a)) == r.WLoop {
+			nAdd++
+			n, isC := IntConst(a.Common().Args[1])
+			c.Report(isC && n == 1 && !InLoop(a), P+".O5", "HANDLER-COUNTED", r.AddHandler, a.Pos(), "handlersWg.Add", "each added handler is counted once in the handler-loop wait group")
+		}
+	}
+	c.Floor(P+".O5", "handler-loop wait group Add in AddHandler", nAdd, 1)
+	for _, d := range CallsTo(r.StartLit, nWGDone) {
+		if r.LA.LockID(Receiver(d)) != r.WLoop {
+			continue
+		}
+		ok := !InLoop(d)
+		for _, lc := range Callers([]*ssa.Function{r.StartLit}, r.RunLoop) {
+			if _, isDefer := d.(*ssa.Defer); !isDefer && !Dominates(r.StartLit, lc, d) {
+				ok = false
+			}
+		}
+		c.Report(ok, P+".O5", "HANDLER-RELEASED-AFTER-LOOP", r.StartLit, d.Pos(), "handlersWg.Done", "the handler is released from the wait group once, after its run loop returned")
+	}
 	// Run returns nil after close (C06.O5) and cancels the handlers' context when closing starts
 }
 
